@@ -43,18 +43,20 @@ type visitRet struct {
 }
 
 type visitorEnv struct {
-	p        *Program
-	vrType   *types.Named
-	vrPtr    types.Type
-	resIdx   int
-	errIdx   int
-	termImpl types.Type
-	trPtr    types.Type // *parser.typeResult (what visiting a type specifier yields)
-	trFields int
-	trErrIdx int
-	maps     map[string]map[string]aval // constant package-level maps of package parser
-	g4       *g4Grammar
-	cache    map[*ssa.Function]*visitorRun // unpinned runs
+	p             *Program
+	vrType        *types.Named
+	vrPtr         types.Type
+	resIdx        int
+	errIdx        int
+	termImpl      types.Type
+	trPtr         types.Type // *parser.typeResult (what visiting a type specifier yields)
+	trFields      int
+	trErrIdx      int
+	cloneFn       *ssa.Function              // (*FHIRPathVisitor).clone, resolved as an anchor (rename-tolerant)
+	typeSpecFails bool                       // the visit of a type specifier answers an error
+	maps          map[string]map[string]aval // constant package-level maps of package parser
+	g4            *g4Grammar
+	cache         map[*ssa.Function]*visitorRun // unpinned runs
 }
 
 func newVisitorEnv(p *Program) (*visitorEnv, error) {
@@ -83,17 +85,38 @@ func newVisitorEnv(p *Program) (*visitorEnv, error) {
 	if env.resIdx < 0 || env.errIdx < 0 {
 		return nil, fmt.Errorf("anchor: parser.VisitResult has no Result/Error fields")
 	}
-	if tr := sp.Type("typeResult"); tr != nil {
-		if st, ok := tr.Type().Underlying().(*types.Struct); ok {
-			env.trPtr = types.NewPointer(tr.Type())
-			env.trFields = st.NumFields()
-			env.trErrIdx = -1
-			for i := 0; i < st.NumFields(); i++ {
-				if isErrorType(st.Field(i).Type()) {
-					env.trErrIdx = i
-				}
+	// what visiting a type specifier yields: the struct type of the package that pairs
+	// a reflection.TypeSpecifier with an error (found by its fields, not its name)
+	var trNames []string
+	for name, m := range sp.Members {
+		if _, ok := m.(*ssa.Type); ok {
+			trNames = append(trNames, name)
+		}
+	}
+	sort.Strings(trNames)
+	for _, name := range trNames {
+		tr := sp.Members[name].(*ssa.Type)
+		st, ok := tr.Type().Underlying().(*types.Struct)
+		if !ok || st.NumFields() != 2 {
+			continue
+		}
+		errIdx, tsIdx := -1, -1
+		for i := 0; i < st.NumFields(); i++ {
+			if isErrorType(st.Field(i).Type()) {
+				errIdx = i
+			}
+			if namedName(st.Field(i).Type()) == "TypeSpecifier" {
+				tsIdx = i
 			}
 		}
+		if errIdx >= 0 && tsIdx >= 0 {
+			env.trPtr = types.NewPointer(tr.Type())
+			env.trFields = st.NumFields()
+			env.trErrIdx = errIdx
+		}
+	}
+	if m, err := p.Method("fhirpath/internal/parser", "FHIRPathVisitor", "clone"); err == nil {
+		env.cloneFn = m
 	}
 	if env.maps, err = p.constGlobalMaps("fhirpath/internal/parser"); err != nil {
 		return nil, err
@@ -126,13 +149,13 @@ func noteWithPrefix(v aval, prefix string) string {
 // run analyses the visitor method fn with the operator token pinned to tok
 // (pinTok false: the token is unknown).
 func (env *visitorEnv) run(fn *ssa.Function, tok string, pinTok bool) *visitorRun {
-	if !pinTok {
+	if !pinTok && !env.typeSpecFails {
 		if c := env.cache[fn]; c != nil {
 			return c
 		}
 	}
 	vr := &visitorRun{}
-	if !pinTok {
+	if !pinTok && !env.typeSpecFails {
 		env.cache[fn] = vr
 	}
 	seenVisit := map[visitObs]bool{}
@@ -171,6 +194,9 @@ func (env *visitorEnv) run(fn *ssa.Function, tok string, pinTok bool) *visitorRu
 					st.elems[i] = nonnil("visited-type:" + o.arg)
 				}
 				st.elems[env.trErrIdx] = aval{k: kNil}
+				if env.typeSpecFails {
+					st.elems[env.trErrIdx] = nonnil("type-specifier-error")
+				}
 				out := ptrTo(st)
 				out.dyn = env.trPtr
 				return out, true
@@ -184,7 +210,7 @@ func (env *visitorEnv) run(fn *ssa.Function, tok string, pinTok bool) *visitorRu
 			out := ptrTo(st)
 			out.dyn = env.vrPtr
 			return out, true
-		case isVisitorMethod(sc, "clone") && len(args) == 1:
+		case (isVisitorMethod(sc, "clone") || (env.cloneFn != nil && sc == env.cloneFn)) && len(args) == 1:
 			return visitorValue("visitor:clone"), true
 		}
 		return aval{}, false
